@@ -188,13 +188,16 @@ fn encode<'t, T>(
                 (_, Literal(literal)) => {
                     // TODO: Only encode changes to casing flags.
                     // TODO: Should Unicode support also be toggled by casing flags?
+                    // Scope the casing flag to the literal so that it never applies to any other
+                    // token (in particular character classes, which are always case-sensitive).
                     if literal.is_case_insensitive() {
-                        pattern.push_str("(?i)");
+                        pattern.push_str("(?i:");
                     }
                     else {
-                        pattern.push_str("(?-i)");
+                        pattern.push_str("(?-i:");
                     }
                     pattern.push_str(&literal.text().escaped());
+                    pattern.push(')');
                 },
                 (_, Separator(_)) => pattern.push_str(sepexpr!("{0}")),
                 (_, Class(class)) => {
